@@ -146,6 +146,7 @@ type World struct {
 
 	clock     int64
 	clockMode string // "", "stall", "back", "jump"
+	clockNext *int64 // one-shot value for the next read
 	lastClock int64
 
 	Key           *ecdsa.PrivateKey
@@ -218,6 +219,12 @@ func (w *World) readClock() int64 {
 	w.mu.Lock()
 	defer w.mu.Unlock()
 	var v int64
+	if w.clockNext != nil {
+		v = *w.clockNext
+		w.clockNext = nil
+		w.emit(&Raw{Ev: "Clock", Value: v, Note: "set"})
+		return v
+	}
 	switch w.clockMode {
 	case "stall":
 		v = w.lastClock
@@ -242,6 +249,20 @@ func (w *World) readClock() int64 {
 func (w *World) SetClock(mode string) {
 	w.mu.Lock()
 	w.clockMode = mode
+	w.mu.Unlock()
+}
+
+// SetClockNext makes the next clock read (only) return v.
+func (w *World) SetClockNext(v int64) {
+	w.mu.Lock()
+	w.clockNext = &v
+	w.mu.Unlock()
+}
+
+// ClearClockNext drops an unused one-shot value.
+func (w *World) ClearClockNext() {
+	w.mu.Lock()
+	w.clockNext = nil
 	w.mu.Unlock()
 }
 
